@@ -20,7 +20,11 @@ Dom(name) ==
     [] name = "le0c" -> [lb |-> -Inf, ub |-> 0, int |-> FALSE]
     [] name = "free" -> [lb |-> -Inf, ub |-> Inf, int |-> FALSE]
     [] name = "gem2" -> [lb |-> -2, ub |-> Inf, int |-> FALSE]
+    [] name = "im31" -> [lb |-> -3, ub |-> 1,  int |-> TRUE]      \* zero inside, |lb| > ub
+    [] name = "cm21" -> [lb |-> -2, ub |-> 1,  int |-> FALSE]
+    [] name = "im13" -> [lb |-> -1, ub |-> 3,  int |-> TRUE]      \* zero inside, |lb| < ub
 NumDoms == {"b01", "pm2", "i03", "i13", "neg", "fix2", "c02", "cpm1", "cneg", "cfix", "ge0i", "le0c", "free", "gem2"}
+AsymDoms == {"im31", "cm21", "im13"}
 SmallDoms == {"b01", "pm2", "i13", "neg", "fix2", "c02", "cpm1", "ge0i", "free"}
 IntDoms == {"b01", "pm2", "i03", "i13", "neg", "fix2", "ge0i"}
 BinDoms == {"b01", "f0", "f1"}
@@ -29,9 +33,12 @@ Base(type, doms) == [type |-> type, doms |-> [j \in 1..Len(doms) |-> Dom(doms[j]
                      k |-> 0, c0 |-> 0, c2 |-> 0, cs |-> 1, lin |-> <<>>, quad |-> <<>>, px |-> <<>>, py |-> <<>>]
 
 Cases ==
-  {Base(t, <<a>>) : t \in {"Abs"}, a \in NumDoms}
+  {Base(t, <<a>>) : t \in {"Abs"}, a \in NumDoms \cup AsymDoms}
   \cup {Base("Not", <<a>>) : a \in BinDoms}
-  \cup {[Base("Pow", <<a>>) EXCEPT !.k = e] : a \in NumDoms, e \in {-2, -1, 0, 1, 2, 3}}
+  \cup {[Base("Pow", <<a>>) EXCEPT !.k = e] : a \in NumDoms \cup AsymDoms, e \in {-2, -1, 0, 1, 2, 3, 4}}
+  \cup {Base(t, <<a, b>>) : t \in {"Max", "Min", "Div"}, a \in AsymDoms, b \in {"im31", "cm21", "c02", "neg"}}
+  \cup {[Base("QuadFunc", <<a, b>>) EXCEPT !.lin = <<0, 0>>, !.quad = q] : a \in AsymDoms, b \in AsymDoms \cup {"c02", "neg"},
+          q \in { << <<1, 1, 2>> >>, << <<1, 1, 1>> >>, << <<-1, 2, 2>> >> }}
   \cup {[Base("PL", <<a>>) EXCEPT !.px = p[1], !.py = p[2]] : a \in NumDoms \ {"free", "le0c"},
           p \in {<< <<0, 1, 3>>, <<0, 2, 1>> >>, << <<-2, 0, 2>>, <<3, -1, 3>> >>, << <<-1, 1>>, <<-2, 2>> >>}}
   \cup {Base(t, <<a, b>>) : t \in {"Max", "Min", "Div"}, a \in NumDoms, b \in NumDoms}
